@@ -172,7 +172,7 @@ def witness_traces(regs, guarded=False):
     W1, W2 = (lambda b: W("db/m1", b)), (lambda b: W("db/m2", b))
     return [
         {"sig": KF_SHUTDOWN, "name": "shutdown-final-flush-fails", "max_size": 100, "queue": 8, "wal": True, "final": 2,
-         "ops": [W1(b1), {"op": "fail", "mode": "all"}, {"op": "shutdown", "regs": rel, "guarded": guarded}, {"op": "fail", "mode": "none"}]},
+         "ops": [W1(b1), {"op": "fail", "mode": "all", "slow_ms": 150}, {"op": "shutdown", "regs": rel, "guarded": guarded}, {"op": "fail", "mode": "none"}]},
         {"sig": KF_NOWAL, "name": "nowal-queue-full", "max_size": 1, "queue": 1, "wal": False, "final": True,
          "ops": [{"op": "block"}, W1(b1), W1(b2), W1(b3), {"op": "unblock"}, {"op": "flushall"}]},
         {"sig": KF_NOWAL, "name": "nowal-flush-fails", "max_size": 1, "queue": 8, "wal": False, "final": True,
@@ -326,8 +326,12 @@ def coq_regs(regs):
     return clist([lb.coq_reg(r) for r in regs]) if regs else "[]"
 
 
-def order_term(regs, order):
-    return "COrder %s %s" % (coq_regs(regs), clist(['"%s"' % n for n in order]) if order else "[]")
+def coq_events(events):
+    return clist(['(%s, "%s")' % (cbool(e.startswith("+")), e[1:]) for e in events]) if events else "[]"
+
+
+def order_term(regs, order, events):
+    return "COrder %s %s %s" % (coq_regs(regs), clist(['"%s"' % n for n in order]) if order else "[]", coq_events(events))
 
 
 COQ_HEADER7 = ("From Coq Require Import List ZArith NArith Bool String.\nFrom Arc Require Import Buffer.Model Buffer.Shutdown Buffer.ModelC07.\n"
@@ -437,7 +441,12 @@ def _run(res, tier, seed):
     oobs = run_orders(tables, tier)
     res.stage("impl_harness", t1)
     t2 = time.time()
-    terms = [trace_term(c, o, H, thr) for c, o in zip(traces, obs)] + [order_term(t, o["order"]) for t, o in zip(tables, oobs)]
+    terms = [trace_term(c, o, H, thr) for c, o in zip(traces, obs)] + [order_term(t, o["order"], o.get("events") or []) for t, o in zip(tables, oobs)]
+    # the shutdown ops executed inside fault traces (real ArrowBuffer.Close with a slow failing storage,
+    # real PurgeAll) are judged by the same ordering oracle
+    shut = [(i, op["regs"], o) for i, (c, o) in enumerate(zip(traces, obs)) for op in c["ops"] if op["op"] == "shutdown"]
+    n_plain = len(terms)
+    terms += [order_term(regs_, o.get("order") or [], o.get("events") or []) for _, regs_, o in shut]
     r = lb.par_check_cases("C07", COQ_HEADER7, "ccase7", terms, {"agree": "case7_agrees", "oracle": "case7_oracle"},
                            name="Cases_C07_%s" % tier, timeout=1500)
     dis, orf = set(r["agree"]), set(r["oracle"])
@@ -469,8 +478,26 @@ def _run(res, tier, seed):
     reported = False
     if ntr in dis or (model_order and model_order != real_order):
         pass  # reported with the disagreements below
-    order_bad = ntr in orf                         # oracle on the real coordinator's order of the deployed table
-    if order_bad != (not purge_after_flush) and ntr not in dis:
+    order_bad = ntr in orf                         # oracle on the real coordinator's run of the deployed table
+    # the ordering property on the events of the real coordinator (deployed table with plain recorders, and
+    # the shutdown ops inside fault traces with the real Close / PurgeAll): "wal-purge does not start
+    # before arrow-buffer's Close has returned"
+    shut_bad = [k for k in range(len(shut)) if (n_plain + k) in orf]
+    if (order_bad or shut_bad) and KF_SHUTDOWN not in known:
+        def overlap(events):
+            return [e for e in events if e[1:] in ("wal-purge", "arrow-buffer", "wal")]
+        repl = {"kind": "oracle-failure", "property": "wal-purge must not start before arrow-buffer's Close has returned",
+                "registrations": [(r["name"], r["kind"], r["prio"]) for r in regs],
+                "real_coordinator_events_plain_recorders": overlap(oobs[0].get("events") or [])}
+        if shut_bad:
+            ti, _, o_ = shut[shut_bad[0]]
+            repl.update({"case": traces[ti], "observed": o_, "events_with_real_close_and_purge": overlap(o_.get("events") or []),
+                         "stored_files": len(o_["files"]), "wal_entries_left": o_["wal_entries"],
+                         "how_to_replay": "python3 tools/check.py C07 --replay <this file>"})
+        res.violation("the real shutdown.Coordinator starts wal-purge before arrow-buffer's Close has returned (%s)"
+                      % ("deployed table" + (", and the WAL is gone after a failing final flush" if shut_bad else "")), repl)
+        reported = True
+    elif order_bad != (not purge_after_flush) and ntr not in dis:
         res.violation("the deployed-table obligation decided by Coq and the order observed on the real coordinator differ",
                       {"kind": "obligation-vs-impl", "model_order": model_order, "real_order": real_order}, no_input=True)
         reported = True
@@ -489,12 +516,8 @@ def _run(res, tier, seed):
                       {"kind": "oracle-failure", "case": wit[i], "observed": obs[i], "failing_witnesses": [wit[j]["name"] for j in wit_bad],
                        "how_to_replay": "python3 tools/check.py C07 --replay <this file>"})
         reported = True
-    if order_bad and ntr not in dis:
-        if KF_SHUTDOWN in known:
-            kf_hits.setdefault(KF_SHUTDOWN, []).insert(0, "real coordinator order: %s" % " < ".join(n for n in real_order if n in ("wal-purge", "arrow-buffer", "wal")))
-        else:
-            res.violation("the real coordinator runs wal-purge before arrow-buffer", {"kind": "oracle-failure", "real_order": real_order, "registrations": regs})
-            reported = True
+    if (order_bad or shut_bad) and KF_SHUTDOWN in known:
+        kf_hits.setdefault(KF_SHUTDOWN, []).insert(0, "real coordinator order: %s" % " < ".join(n for n in real_order if n in ("wal-purge", "arrow-buffer", "wal")))
     texts = {KF_SHUTDOWN: "graceful shutdown deletes the WAL (hook wal-purge) before the buffer's final flush (component arrow-buffer); a failing final flush loses the acknowledged rows",
              KF_NOWAL: "with the WAL disabled rows of a write that returned success are dropped when the flush queue is full or the flush fails",
              KF_DUP: "the WAL replay after a flush failure re-stores rows that were already stored (same rows in two Parquet files)",
@@ -539,9 +562,14 @@ def _run(res, tier, seed):
                            "oracle_fails_on_impl": bool(rr["oracle"])}, no_input=not rr["oracle"], suffix="corr")
         else:
             j = idx[0] - ntr
-            res.violation("the real shutdown.Coordinator and the model order a registration table differently",
-                          {"kind": "correspondence", "correspondence": TIE_NAME, "table": tables[j], "real_order": oobs[j]["order"]},
-                          no_input=True, suffix="corr")
+            if j < len(tables):
+                tab, ob_ = tables[j], oobs[j]
+            else:
+                tab, ob_ = shut[idx[0] - n_plain][1], shut[idx[0] - n_plain][2]
+            res.violation("the real shutdown.Coordinator and the model order / run a registration table differently",
+                          {"kind": "correspondence", "correspondence": TIE_NAME, "table": tab, "real_order": ob_.get("order"),
+                           "real_events": ob_.get("events"), "oracle_fails_on_impl": idx[0] in orf},
+                          no_input=idx[0] not in orf, suffix="corr")
 
 
 def shrink_trace(c, H, thr, rounds=5):
